@@ -17,7 +17,12 @@ RULE = ("spend cases (scriptSig, scriptPubKey, witness, flags, tx context) and e
         "(script size, op count, stack size, push size, truncated pushes, nesting), witness-program dispatch (versions 0-16 x lengths), "
         "signature-bearing P2PK/P2PKH/multisig spends in all wrappers with every signature/pubkey encoding variant and hash type, CLTV/CSV "
         "boundary grids, minimal-push and DER-form x single-flag matrices, size limits met through whole spends (scriptSig / scriptPubKey / redeem "
-        "script / nested witness script and items), random scripts bare and wrapped. Every 16th agreeing spend and every multi-input "
+        "script / nested witness script and items), random scripts bare and wrapped; a flag x stage matrix (fragments exercising the rule of "
+        "each flag, placed with their operators in the scriptSig, the scriptPubKey, a redeem script and a witness script, inputs pushed by "
+        "the stage itself or fed by the previous one, under the dispatch flags alone, plus each single flag, everything, everything but the "
+        "rule); multi-input transactions mixing spends that fail part-way in every stage, clean-slate detectors, same-script twins and "
+        "inputs / calls the library refuses, on one checker object in both orders with each context used twice; one run of more than 2**16 "
+        "spends through a single checker object. Every 16th agreeing spend and every multi-input "
         "transaction is asked again through Tx.is_solution_ok and Tx.bad_solution_count (also without a flags argument when the flag set is "
         "pycoin's default). Non-trivial: the reference executed at least one non-push opcode or a dispatch rule "
         "(P2SH / witness / cleanstack / push-only) decided the case; distinct by (scripts, witness, flags, context).")
@@ -30,6 +35,8 @@ ASSUMPTIONS = [
     "single-script evaluation with sigversion BASE strips MINIMALIF / WITNESS_PUBKEYTYPE before calling BitcoinVM, as pycoin's own dispatcher does",
     "verification flags are handed to pycoin by name (pycoin.satoshi.flags.VERIFY_<name>), not by bit position; the signature-hash callback a "
     "stand-alone BitcoinVM needs is the one pycoin's public puzzle_and_solution_iterator yields for a script of that kind",
+    "calls outside the domain (an input whose witness holds a non-bytes item, an input index that does not exist, flags that are not an "
+    "integer, no context) are never judged themselves; only the judged verdicts that follow them on the same objects are",
     "Tx.is_solution_ok is compared by truthiness, Tx.bad_solution_count as a number; inputs of a spend case other than the one under test "
     "spend an empty scriptPubKey of value 0 and are judged by the reference like any other",
 ]
@@ -67,6 +74,15 @@ def plan(tier, seed):
     shards.append({"kind": "multisig", "n": 40 if q else 800, "env": {"PYCOIN_NATIVE": "none"}, "label": "multisig-pure"})
     # the deterministic signature matrices that do not fit into the "fixed" shard's time (appended: earlier shards keep their streams)
     shards.append({"kind": "sigmatrix", "label": "sigmatrix"})
+    # every flag's rule in every evaluation stage (operator-bearing scriptSig / scriptPubKey / redeem script / witness script), and
+    # spends that fail part-way followed by other spends on the same checker object
+    shards.append({"kind": "flagstage", "n_multi": 160 if q else 2500, "label": "flagstage"})
+    if not q:
+        for i in range(3):
+            shards.append({"kind": "flagstage", "n_multi": 2500, "label": "flagstage"})
+        shards.append({"kind": "flagstage", "n_multi": 300, "env": {"PYCOIN_NATIVE": "none"}, "label": "flagstage-pure"})
+    # more than 2**16 spends through ONE checker object in one process
+    shards.append({"kind": "longrun", "n": (1 << 16) + 100 if q else (1 << 17) + 100, "label": "longrun"})
     for k, s in enumerate(shards):
         if k % 3 == 1:
             s["other_networks_first"] = True
@@ -317,52 +333,111 @@ class Monitor:
 
     def run_multi(self, case):
         """every input of one transaction: fresh checker per input (Tx.check_solution) and ONE checker object for all inputs,
-        forward and backward; each verdict must equal the consensus verdict for that input"""
+        forward and backward, with the per-input context objects made up front and each used twice; each verdict must equal the
+        consensus verdict for that input, whatever the calls before it ended in (success, ScriptError part-way through any stage,
+        another exception). Calls the library refuses for other reasons (an input whose witness holds a non-bytes item, an input
+        index that does not exist, flags that are not a number, no context) are interleaved and never judged themselves."""
         rec = self.rec
         tx, flags = case["tx"], case["flags"]
         n = len(tx["ins"])
-        ref = []
+        poison = {int(i): kind for i, kind in case.get("poison") or []}
+        ref, failed_in = [], []
         for i in range(n):
             chk = RS.TxChecker(tx, i, case["amounts"][i])
-            ref.append(RS.result_of(RS.verify_script, tx["ins"][i]["script"], case["spks"][i], tx["ins"][i]["witness"], flags, chk) == "OK")
+            tr = []
+            r = RS.result_of(RS.verify_script, tx["ins"][i]["script"], case["spks"][i], tx["ins"][i]["witness"], flags, chk, tr)
+            ref.append(r == "OK")
+            failed_in.append(None if r == "OK" else (tr[-1][0] if tr else "before"))
         Tx = self.py.Tx
         ins = []
-        for i in tx["ins"]:
+        for k, i in enumerate(tx["ins"]):
             ti = Tx.TxIn(i["prev"], i["index"], i["script"], i["sequence"])
             ti.witness = list(i["witness"])
+            if k in poison:
+                ti.witness = {"wit_none": [None, b"\x51"], "wit_str": ["51", b"\x51"], "wit_int": [b"\x01", 81],
+                              "wit_scalar": [1.5, b"\x51"]}[poison[k]]
             ins.append(ti)
         ptx = Tx(tx["version"], ins, [Tx.TxOut(o["value"], o["script"]) for o in tx["outs"]], tx["lock_time"],
                  [Tx.TxOut(a, s) for a, s in zip(case["amounts"], case["spks"])])
-        rec.case(("multi", txser_bytes(tx), flags), nontrivial=True)
+        rec.case(("multi", txser_bytes(tx), flags, tuple(sorted(poison.items()))), nontrivial=True)
         rec.ev("src:multi")
+        last = [None]           # how the previous call on the shared objects ended: "ok" / "script_error:<stage>" / "other"
 
-        def verdict(fn):
+        def verdict(fn, i=None):
             # True / False; an exception that is not a ScriptError is "did not succeed" (tallied), as for single spends
             try:
                 fn()
-                return True
+                out, how = True, "ok"
             except self.py.ScriptError:
-                return False
+                out, how = False, "script_error"
             except Exception as e:
-                rec.ev("crash_on_invalid:CRASH:" + type(e).__name__)
-                return False
+                if i is None or i not in poison:
+                    rec.ev("crash_on_invalid:CRASH:" + type(e).__name__)
+                out, how = False, "other"
+            if i is not None and i not in poison and last[0] is not None:
+                t = self.tally
+                if last[0].startswith("script_error"):
+                    t["errpath.judged_after_script_error"] += 1
+                    t["errpath.judged_after_failure_in:" + last[0].split(":")[1]] += 1
+                    if ref[i]:
+                        t["errpath.valid_spend_after_script_error"] += 1
+                elif last[0] == "other":
+                    t["errpath.judged_after_other_exception"] += 1
+                    if ref[i]:
+                        t["errpath.valid_spend_after_other_exception"] += 1
+            if i is not None:
+                last[0] = how if how != "script_error" else "script_error:" + str(failed_in[i] or "unknown")
+            return out
+
+        def refused(sc, ctxs, j):
+            # calls outside the domain, never judged; only what they leave behind matters
+            kind = ("bad_index", "flags_str", "no_context", "flags_float")[j % 4]
+            try:
+                if kind == "bad_index":
+                    sc.check_solution(sc.tx_context_for_idx(n + 3), flags=pf)
+                elif kind == "flags_str":
+                    sc.check_solution(ctxs[j % n], flags="P2SH")
+                elif kind == "no_context":
+                    sc.check_solution(None, flags=pf)
+                else:
+                    sc.check_solution(ctxs[j % n], flags=1.5)
+                rec.ev("refused_call.returned:" + kind)
+            except Exception:
+                rec.ev("refused_call.raised:" + kind)
+                last[0] = "other"
         pf = self.py.flags(flags)
-        fresh = [verdict(lambda i=i: ptx.check_solution(i, flags=pf)) for i in range(n)]
+        judged = [i for i in range(n) if i not in poison]
+        fresh = [verdict(lambda i=i: ptx.check_solution(i, flags=pf), i) for i in range(n)]
         rec.ev("Tx.check_solution", n)
         results = {"fresh": fresh}
+        interleave = case["src"] == "multi.error_path"
         for name, order in (("shared_forward", list(range(n))), ("shared_backward", list(range(n - 1, -1, -1)))):
             sc = ptx.SolutionChecker(ptx)
-            got = {}
+            ctxs = [sc.tx_context_for_idx(i) for i in range(n)]
+            last[0] = None
+            got, again = {}, {}
+            for j, i in enumerate(order):
+                if interleave and (j + len(name)) % 3 == 0:
+                    refused(sc, ctxs, j + n)
+                got[i] = verdict(lambda i=i: sc.check_solution(ctxs[i], flags=pf), i)
             for i in order:
-                got[i] = verdict(lambda i=i: sc.check_solution(sc.tx_context_for_idx(i), flags=pf))
+                again[i] = verdict(lambda i=i: sc.check_solution(ctxs[i], flags=pf), i)
             results[name] = [got[i] for i in range(n)]
-            rec.ev("SolutionChecker.check_solution(shared instance)", n)
+            results[name + "_again"] = [again[i] for i in range(n)]
+            rec.ev("SolutionChecker.check_solution(shared instance)", 2 * n)
         for name, got in results.items():
-            if got != ref:
-                bad = [i for i in range(n) if got[i] != ref[i]]
+            bad = [i for i in judged if got[i] != ref[i]]
+            if bad:
                 direction = "accepts" if any(got[i] is True for i in bad) else "rejects"
-                rec.violation("multi.%s.%s" % (direction, name), case, {name: got}, {"consensus": ref})
+                rec.violation("multi.%s.%s" % (direction, name), case, {name: got, "differs_at": bad}, {"consensus": ref})
                 return False
+        # the caller's transaction is as it was: same scripts, same witness items, in the caller's own list objects
+        for k, ti in enumerate(ins):
+            if k not in poison and (bytes(ti.script) != tx["ins"][k]["script"] or [bytes(w) for w in ti.witness] != list(tx["ins"][k]["witness"])):
+                self.tally["multi.caller_objects_changed"] += 1
+        if poison:
+            self.tally["errpath.poisoned_input_cases"] += 1
+            return True
         return self.entry_points(case, ptx, ref, flags)
 
     def entry_points(self, case, ptx, ref, flags):
@@ -435,6 +510,22 @@ class Monitor:
         opm = case.get("opm")
         if opm:
             self.opm_seen.add((opm[0], opm[1]))
+        fs = case.get("fs")
+        if fs:
+            name, placement, rule, promise = fs
+            stage = placement.split(".")[0]
+            if promise is not None and promise != (ref_code == "OK"):
+                # the generator promised this verdict under the bare dispatch flags: the harness contradicts itself
+                self.rec.ev("inconclusive:flagstage_promise")
+                self.rec.note("flag x stage fragment %s in %s: promised %s, reference says %s" % (name, placement, promise, ref_code))
+            operator_ran = any(x[0] == stage and x[3] and x[2] > 0x60 for x in rtrace)
+            if rule and flags & RS.FLAG_NAMES[rule] and (operator_ran or ref_code == "SIG_PUSHONLY"):
+                t["flagstage:%s:%s" % (stage, rule)] += 1
+                t["flagstage.%s:%s:%s" % ("ok" if ref_code == "OK" else "fail", stage, rule)] += 1
+            if operator_ran:
+                for b, n in FLAG_BITS:
+                    if flags & b:
+                        t["flagstage.operators_in:%s:with:%s" % (stage, n)] += 1
 
     def flush(self):
         for k, v in self.tally.items():
@@ -478,6 +569,8 @@ class Monitor:
             return True
         ptrace = self.py_trace(case)
         mech = classify(case, ref_code, py_code, rtrace, ptrace, ref_stack, py_stack)
+        if case.get("fs"):
+            mech += ".fragment_in_" + case["fs"][1].split(".")[0]
         rec.violation(mech, case, {"pycoin": py_code, "stack": py_stack}, {"consensus": ref_code, "stack": ref_stack},
                       detail={"ref_last": [opname(t[2]) for t in rtrace[-4:]], "py_last": [opname(t[0]) for t in ptrace[-4:]]})
         return False
@@ -527,6 +620,12 @@ def run_shard(spec, rec):
         feed(G.nullfail_matrix(rng, keys, ("p2wsh",)), 500)
         feed(G.tiny_sig_matrix(rng, keys), 100)
         feed(G.two_sigops_cases(rng, keys, 160), 80)
+    elif kind == "flagstage":
+        rec.require(*REQUIRED_FLAGSTAGE)
+        feed(G.flag_stage_matrix(rng, keys), 700)
+        feed(G.error_path_multi_cases(rng, keys, spec["n_multi"]), 40)
+    elif kind == "longrun":
+        long_run(spec, rec, mon, rng, keys)
     elif kind == "mut":
         rec.require("src:mut")
         feed(G.corpus_mutations(rng, dd, spec["n"]), 3000)
@@ -551,6 +650,108 @@ def run_shard(spec, rec):
         feed(G.witness_dispatch_cases(rng), 1500)
     mon.flush()
 
+
+def long_run(spec, rec, mon, rng, keys):
+    """more than 2**16 spends through ONE SolutionChecker object (and one Tx, one process): a transaction of a few dozen inputs
+    whose consensus verdicts are computed once by the reference, then asked over and over in a shuffled order; every answer is
+    compared. Failing spends of several stages, clean-slate detectors and signature-bearing spends alternate."""
+    rec.require("longrun.more_than_65536_on_one_checker", "longrun.valid", "longrun.invalid")
+    frags = {f["name"]: f for f in G.fs_fragments(keys) + G.fs_failing_fragments(keys) + G.fs_detector_fragments()}
+    picks = [("if_01", "scriptPubKey.fed"), ("if_02", "witness.fed"), ("if_02", "scriptSig.own"), ("det_depth_zero", "scriptPubKey.own"),
+             ("fail_in_nested_if_with_alt", "scriptPubKey.own"), ("det_fromalt_empty", "scriptPubKey.own"), ("push1", "redeem.fed"),
+             ("fail_open_if", "redeem.own"), ("det_endif_alone", "witness.own"), ("md_ok", "witness.fed"), ("fail_return_with_stack", "witness.fed"),
+             ("det_alt_roundtrip", "redeem.own"), ("nop1", "scriptSig.own"), ("fail_truncated_push", "scriptSig.own"), ("cs_comp", "scriptPubKey.fed"),
+             ("cs_wrong_not", "witness.fed"), ("fail_checksigverify", "redeem.fed"), ("cs_uncomp", "scriptSig.own"), ("extra_item", "witness.own"),
+             ("md_num", "scriptPubKey.fed"), ("fail_unbalanced_else", "scriptPubKey.own"), ("det_else_alone", "scriptPubKey.own"),
+             ("cltv_sat", "redeem.fed"), ("csv_unsat", "witness.fed")]
+    tx = G.fs_tx(rng, len(picks))
+    spks, amounts = [], []
+    for i, (name, placement) in enumerate(picks):
+        amounts.append(3000 + i)
+        placed = G.fs_place(keys, frags[name], placement, tx, i, amounts[i])
+        tx["ins"][i]["script"], tx["ins"][i]["witness"] = placed[0], placed[2]
+        spks.append(placed[1])
+    flags = G.ALL_FLAGS & ~RS.SIGPUSHONLY & ~RS.CLEANSTACK
+    ref = [RS.result_of(RS.verify_script, tx["ins"][i]["script"], spks[i], tx["ins"][i]["witness"], flags, RS.TxChecker(tx, i, amounts[i])) == "OK"
+           for i in range(len(picks))]
+    if all(ref) or not any(ref):
+        rec.ev("inconclusive:longrun_no_mix")
+    case = {"k": "multi", "tx": tx, "spks": spks, "amounts": amounts, "flags": flags, "src": "multi.longrun"}
+    long_run_case(case, rec, mon, spec["n"], rng)
+
+
+def long_run_case(case, rec, mon, n_calls, rng):
+    tx, spks, amounts, flags = case["tx"], case["spks"], case["amounts"], case["flags"]
+    picks = tx["ins"]
+    ref = [RS.result_of(RS.verify_script, tx["ins"][i]["script"], spks[i], tx["ins"][i]["witness"], flags, RS.TxChecker(tx, i, amounts[i])) == "OK"
+           for i in range(len(picks))]
+    py = mon.py
+    Tx = py.Tx
+    ins = []
+    for i in tx["ins"]:
+        ti = Tx.TxIn(i["prev"], i["index"], i["script"], i["sequence"])
+        ti.witness = list(i["witness"])
+        ins.append(ti)
+    ptx = Tx(tx["version"], ins, [Tx.TxOut(o["value"], o["script"]) for o in tx["outs"]], tx["lock_time"],
+             [Tx.TxOut(a, s) for a, s in zip(amounts, spks)])
+    sc = ptx.SolutionChecker(ptx)
+    ctxs = [sc.tx_context_for_idx(i) for i in range(len(picks))]
+    pf = py.flags(flags)
+    rec.case(("longrun", txser_bytes(tx), flags), nontrivial=True)
+    # first through the transaction's own entry point, and through the monitor's ordinary multi-input path
+    if not mon.run_multi(case):
+        return
+    n_ok = n_bad = done = 0
+    order = list(range(len(picks)))
+    # inputs whose verdict is another one under no flags and under P2SH|WITNESS alone: the calls whose number is a multiple of 4096 (2**16, 2**17 among them) go to these
+    others = [0, RS.P2SH | RS.WITNESS, G.ALL_FLAGS]
+    fragile = [i for i in order if all((RS.result_of(RS.verify_script, tx["ins"][i]["script"], spks[i], tx["ins"][i]["witness"], f,
+                                                     RS.TxChecker(tx, i, amounts[i])) == "OK") != ref[i] for f in others[:2])]
+    if not fragile:
+        rec.ev("inconclusive:longrun_no_flag_dependent_input")
+        fragile = order[:1]
+    while done < n_calls:
+        rng.shuffle(order)
+        for i in order:
+            if (done + 1) % 4096 == 0:
+                i = fragile[((done + 1) // 4096) % len(fragile)]
+            try:
+                sc.check_solution(ctxs[i], flags=pf)
+                got = True
+            except py.ScriptError:
+                got = False
+            except Exception as e:
+                rec.ev("crash_on_invalid:CRASH:" + type(e).__name__)
+                got = False
+            done += 1
+            if got != ref[i]:
+                rec.violation("longrun.%s.after_%s_calls" % ("accepts" if got else "rejects", "more_than_65535" if done > 65535 else "fewer_than_65536"),
+                              dict(case, longrun_calls=done, longrun_input=i), {"verdict": got, "input": i, "call_number": done}, {"consensus": ref})
+                return
+            if got:
+                n_ok += 1
+            else:
+                n_bad += 1
+    rec.ev("SolutionChecker.check_solution(shared instance)", done)
+    rec.ev("longrun.valid", n_ok)
+    rec.ev("longrun.invalid", n_bad)
+    if done > (1 << 16):
+        rec.ev("longrun.more_than_65536_on_one_checker")
+    rec.ev("longrun.calls_on_one_checker", done)
+
+
+# counters the flag x stage shard must leave non-zero: every rule in every stage with an operator-bearing script of that stage and
+# the rule's flag set; valid and invalid spends judged right after a spend that failed part-way through each stage / after a call
+# that ended in another exception, on the same checker object
+REQUIRED_FLAGSTAGE = (["flagstage:%s:%s" % (st, r) for st in G.FS_STAGES for r in G.FS_RULES] +
+                      ["flagstage.ok:scriptSig:MINIMALIF", "flagstage.ok:scriptSig:WITNESS_PUBKEYTYPE", "flagstage.fail:witness:MINIMALIF",
+                       "flagstage.fail:witness:WITNESS_PUBKEYTYPE", "flagstage.ok:redeem:MINIMALIF", "flagstage.ok:scriptPubKey:WITNESS_PUBKEYTYPE",
+                       "decided_by:SIG_PUSHONLY", "decided_by:WITNESS_MALLEATED", "src:flagstage", "src:multi",
+                       "errpath.judged_after_script_error", "errpath.valid_spend_after_script_error", "errpath.judged_after_other_exception",
+                       "errpath.valid_spend_after_other_exception", "errpath.poisoned_input_cases", "refused_call.raised:bad_index"] +
+                      ["errpath.judged_after_failure_in:" + st for st in G.FS_STAGES] +
+                      ["flagstage.operators_in:%s:with:%s" % (st, n) for st in G.FS_STAGES for _, n in FLAG_BITS
+                       if not (st == "scriptSig" and n == "SIGPUSHONLY")])
 
 # counters the fixed shard must leave non-zero (clause of the statement -> evidence counter)
 REQUIRED_FIXED = [
@@ -595,6 +796,14 @@ def _brief(case):
 def replay_case(case, rec):
     mon = Monitor(rec)
     mon.entry_every = 1
+    if case.get("longrun_calls"):
+        # the same transaction asked again that many times through one checker object (the order between the forced calls is
+        # not the shard's; the calls whose number is a multiple of 4096 go to the same inputs)
+        import random
+        n_calls = int(case["longrun_calls"]) + 100
+        case = {k: v for k, v in case.items() if not k.startswith("longrun_")}
+        long_run_case(case, rec, mon, n_calls, random.Random(0))
+        return
     ok = mon.run(case)
     if not ok and case["k"] != "multi":
         rt = []
